@@ -221,7 +221,7 @@ Record target := {
   t_tools : list str;                       (* toolPaths(AllTools()); no named tools *)
   t_secrets : list str;
   t_named_secrets : list (str * list str);
-  t_env : list (str * str)                  (* target.Env, in map iteration order *)
+  t_env : list (str * str)                  (* target.Env, a map: any presentation order *)
 }.
 
 Definition opt_list (o : option (list str)) : list str := match o with Some l => l | None => [] end.
@@ -242,13 +242,20 @@ Definition has_tilde_secrets (t : target) : bool :=
 Definition secrets_value (caller : env) (l : list str) : str :=
   colons_to_spaces (expand_home (getenv caller HOME) (join (s ":") l)).
 
-(* withUserProvidedEnv: k, v range over target.Env in the given order *)
+(* withUserProvidedEnv: the keys of target.Env are collected, sorted (sort.Strings) and applied in that order;
+   a value containing "$" is expanded with os.Expand against the environment built SO FAR. *)
 Definition user_env_step (e : env) (kv : str * str) : env :=
   let v := snd kv in
   let v := if contains_byte (ch "$") v
            then os_expand (fun k => match lookup k e with Some x => x | None => ch "$" :: k end) v else v in
   set (fst kv) v e.
-Definition with_user_env (uenv : list (str * str)) (e : env) : env := fold_left user_env_step uenv e.
+Fixpoint insert_env (kv : str * str) (l : list (str * str)) : list (str * str) :=
+  match l with
+  | [] => [kv]
+  | x :: r => if str_leb (fst kv) (fst x) then kv :: l else x :: insert_env kv r
+  end.
+Definition sort_env (l : list (str * str)) : list (str * str) := fold_right insert_env [] l.
+Definition with_user_env (uenv : list (str * str)) (e : env) : env := fold_left user_env_step (sort_env uenv) e.
 
 (* BuildEnvironment(state, target, tmpDir), non-sandboxed target, no Bazel compatibility *)
 Definition build_env (cfg : config) (t : target) (tmp : str) (caller : env) : env :=
@@ -303,17 +310,7 @@ Definition reads (cfg : config) (t : target) : list str :=
 Definition hashed_reads (cfg : config) (t : target) : list str := c_pass_env cfg ++ opt_list (t_pass_env t).
 
 (* ---- correspondence cases ---- *)
-Fixpoint insert_all {A} (x : A) (l : list A) : list (list A) :=
-  match l with
-  | [] => [[x]]
-  | y :: r => (x :: l) :: map (cons y) (insert_all x r)
-  end.
-Fixpoint perms {A} (l : list A) : list (list A) :=
-  match l with
-  | [] => [[]]
-  | x :: r => flat_map (insert_all x) (perms r)
-  end.
-
+(* the same target with its env dict presented in another order (Go maps have no order) *)
 Definition with_env (t : target) (e : list (str * str)) : target :=
   {| t_pkg := t_pkg t; t_pkg_dir := t_pkg_dir t; t_name := t_name t; t_local := t_local t;
      t_pass_unsafe := t_pass_unsafe t; t_pass_env := t_pass_env t; t_srcs := t_srcs t; t_outs := t_outs t;
@@ -343,7 +340,7 @@ Inductive case :=
 Definition check (c : case) : bool :=
   match c with
   | CBuildEnv cfg t tmp caller obs =>
-      existsb (fun p => env_eqb (build_env cfg (with_env t p) tmp caller) obs) (perms (t_env t))
+      env_eqb (build_env cfg t tmp caller) obs
   | CConfigEnv cfg caller obs => env_eqb (config_build_env cfg caller) obs
   | CExpandHome home x out => str_eqb (expand_home home x) out
   | CExpand e x out =>
